@@ -75,6 +75,7 @@ class Console:
         self.answered: list[tuple] = []
         self.pid = 0x40
         self.apply_controls = True
+        self.scripts: dict[str, list] = {}  # request kind -> per-request actions: "prompt" | ["late", d] | "never"
 
     # -- state -----------------------------------------------------------------
     def reset_state(self) -> None:
@@ -130,6 +131,15 @@ class Console:
         kind = reading["kind"]
         if kind in self.mute:
             return
+        delay = self.answer_delay
+        script = self.scripts.get(kind)
+        if script:
+            act = script.pop(0)
+            if act == "never":
+                self.trace.add("console.unanswered", k=kind)
+                return
+            if isinstance(act, (list, tuple)) and act[0] == "late":
+                delay = act[1]
         replies = self._react(fr, reading)
         if replies is None:
             return
@@ -143,8 +153,8 @@ class Console:
             if ex.get("once"):
                 del self.extras[kind]
         self.answered.append((kind, self.net.loop._vtime, link.id))
-        if self.answer_delay > 0:
-            self.net.loop.sim_after(self.answer_delay, self._send_all, link, out)
+        if delay > 0:
+            self.net.loop.sim_after(delay, self._send_all, link, out)
         else:
             self._send_all(link, out)
 
